@@ -214,6 +214,10 @@ def judge_c02(rec):
         term = [e[1] for e in rec['events'] if e[0] == 'listener' and e[1] in TERMINAL]
         if term != [state]:
             bad('terminal-notifications', 'terminal listener notifications %s for final state %s' % (term, state))
+        if rec['case'].get('listener') == 'twice':
+            gone = [e[1] for e in rec['events'] if e[0] == 'listener_removed']
+            if gone:
+                bad('terminal-notifications', 'a listener that had been removed again was still notified: %s' % gone)
         if rec['case'].get('listener') == 'raising':
             for ch in ('listener2', 'listener3'):
                 term = [e[1] for e in rec['events'] if e[0] == ch and e[1] in TERMINAL]
